@@ -113,6 +113,13 @@ def raw_frame(b):
                                  weather={"south": b["south"]})
     df = synth.hourly_frame(days=b["n"], tz=b["tz"], start_day=b["start_day"], noise_seed=b["noise_seed"], usage=b["usage"],
                             noise=b["noise"] * 2, ghi=bool(b.get("ghi")), weather={"south": b["south"]})
+    if b.get("edge_gaps"):
+        # missing hours in the first and in the last day (closer to the ends of the series than the interpolation's lags)
+        ti, oi = df.columns.get_loc("temperature"), df.columns.get_loc("observed")
+        df.iloc[2:5, ti] = np.nan
+        df.iloc[6:8, oi] = np.nan
+        df.iloc[-5:-3, ti] = np.nan
+        df.iloc[-3:-2, oi] = np.nan
     if b.get("profile") in SUPPLEMENTAL:
         # supplemental columns (complete, deterministic functions of the clock and the seed) the profile trains on
         rng = np.random.default_rng(b["noise_seed"] + 4242)
